@@ -92,8 +92,15 @@ func (x *explorer) observe(m map[string]string, id uint64) string {
 			}
 		}
 	}
-	return "?matches-no-request"
+	for _, o := range owners { // unknown content: keep at least the owner for the reference's bookkeeping
+		if sc.Address == x.e.A(o).Addr {
+			return "?" + o + "/matches-no-request"
+		}
+	}
+	return "?/matches-no-request"
 }
+
+func ownerOf(rec string) string { return strings.TrimPrefix(strings.Split(rec+"/", "/")[0], "?") }
 
 func (x *explorer) events(s state, depth int) []string {
 	var out []string
@@ -214,7 +221,7 @@ func (x *explorer) step(s state, evn string) (state, bool) {
 		info := map[string]any{"chain": c, "record_before": was, "record_after": now, "reference": *cm}
 		if c != id || !strings.HasPrefix(p[0], "approve") {
 			bad("registry-changed-without-approval-of-that-chain", info)
-			cm.Reg, cm.Owner = now, strings.Split(now+"/", "/")[0]
+			cm.Reg, cm.Owner = now, ownerOf(now)
 			continue
 		}
 		switch p[0] {
@@ -226,9 +233,8 @@ func (x *explorer) step(s state, evn string) (state, bool) {
 				bad("registered-twice-at-a-time", info)
 			case now != cm.Apply.Rec:
 				bad("registered-record-differs-from-approved-request", info)
-			default:
-				x.count("registered")
 			}
+			x.count("registered")
 			cm.Epoch++
 			cm.Apply = nil
 		case "approveUpdate":
@@ -243,9 +249,8 @@ func (x *explorer) step(s state, evn string) (state, bool) {
 				bad("updated-by-request-of-a-previous-registration", info)
 			case now != cm.Upd.Rec:
 				bad("updated-record-differs-from-approved-request", info)
-			default:
-				x.count("updated")
 			}
+			x.count("updated")
 			if was == "" {
 				cm.Epoch++
 			}
@@ -258,13 +263,12 @@ func (x *explorer) step(s state, evn string) (state, bool) {
 				bad("removed-without-pending-quit-request", info)
 			case cm.Quit.Epoch != cm.Epoch || cm.Quit.Owner != cm.Owner:
 				bad("removed-by-request-of-a-previous-registration", info)
-			default:
-				x.count("removed")
 			}
+			x.count("removed")
 			cm.Quit = nil
 		}
 		cm.Reg = now
-		cm.Owner = strings.Split(now+"/", "/")[0]
+		cm.Owner = ownerOf(now)
 	}
 	return state{D: d2, M: nm, last: vs}, true
 }
